@@ -12,7 +12,8 @@
      - goleveldb    : writer.go ExecuteBatch (merged value Put appended to the native batch),
                       reader.go (util.BytesPrefix range / explicit range over an engine range cursor)
      - moss         : writer.go ExecuteBatch (native merge ops appended), reader.go PrefixIterator
-                      ([start, incrementBytes(start)) over an engine range cursor), incrementBytes
+                      ([start, incrementBytes(start)) over an engine range cursor), incrementBytes,
+                      iterator.go Seek (restart through the snapshot on a backward Seek)
      - metrics      : pure delegation to the wrapped store (modelled as the wrapped store)
      - upsidedown   : row_merge.go upsideDownMerge.FullMerge / PartialMerge (+ encoding/binary
                       Uvarint / PutUvarint / LittleEndian.Uint64 which it calls)
@@ -262,15 +263,7 @@ Fixpoint merged_puts (mo : merge_op) (ms : merges) (m : kvmap) : option (list sd
 (* moss ExecuteBatch: every operand appended to the native batch as a merge op; an engine that
    applies its batch in order resolves them as FullMerge over the value the earlier ops left.
    (moss itself requires the keys of one batch to be unique, see AdapterCorr.) *)
-Fixpoint native_merges (mo : merge_op) (ms : merges) (m : kvmap) : option kvmap :=
-  match ms with
-  | [] => Some m
-  | (k, operands) :: ms' =>
-      match mo_full mo k (m_get m k) operands with
-      | None => None
-      | Some mv => native_merges mo ms' (m_set m k mv)
-      end
-  end.
+Definition native_merges := apply_merges.
 
 (* what happens to a key that is both merged and set/deleted in one batch *)
 Inductive policy :=
